@@ -50,7 +50,11 @@ RULE = (
     "where the network has at least one node (layout) or one edge with >= 2 nodes (draw)"
 )
 ASSUMPTIONS = [
-    "labels: ints 0..k, gapped/negative ints, strings; never mixed inside one network; <= 10 nodes, <= 10 edges, edge sizes 0..5",
+    "labels (kind fixed by idx, 1/9 each): strings, ints 0..k, gapped/negative ints, integral floats 0.0..k, non-integral floats, negative ints only, "
+    "numpy int64/int32, ints mixed with larger integral floats, very large ints (> 2**63); <= 10 nodes, <= 10 edges, edge sizes 0..5",
+    "excluded labels: bool (True == 1 and False == 0 are the SAME dict key as the ints), two labels of one network that compare equal across types (0 and 0.0, "
+    "np.int64(1) and 1: one node, not two), NaN (not equal to itself), None, tuples / frozensets and str mixed with non-str (add_edges_from cannot tell such "
+    "labels from edge formats, DESIGN 1.4; convert_labels_to_integers and draw_simplices rebuild networks through it)",
     "positions handed to draw functions have 2n pairwise distinct coordinates (min separation 0.01), so geometry identifies node IDs; points are matched with tolerance 1e-7",
     "hull=False only; node_labels / hyperedge_labels are not driven (the statement is about markers, lines and polygons)",
     "per-ID style containers are never empty: with no dyad (no polygon) to plot the dyad (edge) style falls back to a scalar",
@@ -75,7 +79,7 @@ COLOR_STRS = ("red", "tab:blue", "#00aa55", "k", "orange", "purple")
 
 def plan(tier):
     if tier == "quick":
-        return {"draw": 170, "layout": 400, "sequence": 50}
+        return {"draw": 170, "layout": 400, "sequence": 54}
     return {"draw": 24000, "layout": 64000, "sequence": 8000}
 
 
@@ -135,17 +139,46 @@ def floors(tier):
         f[f"style:{s}"] = int(2.5 * nd)
     for m in ("None", "<max", ">=max"):
         f[f"max_order:{m}"] = int(0.8 * nd)
-    for k in ("int", "gap", "str"):
-        f[f"draw-labels:{k}"] = int(0.2 * nd)
-        f[f"layout-labels:{k}"] = int(0.2 * nl)
+    for k in LABEL_KINDS:  # each kind gets 1/9 of the cases, fixed by idx
+        f[f"draw-labels:{k}"] = int(0.08 * nd)
+        f[f"layout-labels:{k}"] = int(0.08 * nl)
+        f[f"seq-labels:{k}"] = ns // 14
     return f
 
 
 # ---------------------------------------------------------------------------------
 # networks (built through the public API, one add_edge / add_simplex at a time)
 # ---------------------------------------------------------------------------------
+# Label kinds.  Probed on the unchanged tree: every layout and draw function (pos=None and explicit pos, both classes,
+# also after convert_labels_to_integers / remove_node) handles all of them.  The kinds after "int" are the ones whose
+# labels can EQUAL a phantom-node number of _augmented_projection (phantoms are numbered from max(int labels) + 1, or
+# from 0 when no label is an `int` instance) or stress that numbering: integral floats, non-integral floats, negative
+# ints only, numpy integers (not `int` instances), ints mixed with larger integral floats, very large ints.
+LABEL_KINDS = ("str", "gap", "int", "intfloat", "float", "negint", "npint", "int+float", "bigint")
+_BIG = [10**12 + i for i in range(6)] + [2**70 + i for i in range(6)] + [-(10**15), 2**63, 2**63 - 1]
+
+
 def _pool(rng, big=False, nkind=None):
-    nkind, pool = ops.node_pool(rng, kind=nkind, k=rng.randint(7, 10) if big else rng.randint(3, 8))
+    nkind = nkind or rng.choice(LABEL_KINDS)
+    k = rng.randint(7, 10) if big else rng.randint(3, 8)
+    if nkind in ops.NODE_KINDS:
+        _, pool = ops.node_pool(rng, kind=nkind, k=k)
+    elif nkind == "intfloat":
+        pool = [float(i) for i in range(k)]
+    elif nkind == "float":
+        pool = rng.sample([x / 4 for x in range(-20, 80) if x % 4], k)
+    elif nkind == "negint":
+        pool = rng.sample(range(-40, 0), k)
+    elif nkind == "npint":
+        t = rng.choice((np.int64, np.int64, np.int32))
+        pool = [t(i) for i in (range(k) if rng.random() < 0.7 else rng.sample(range(-5, 40), k))]
+    elif nkind == "int+float":
+        j = rng.randint(1, k - 1)
+        pool = list(range(j)) + [float(i) for i in range(j, k)]
+    elif nkind == "bigint":
+        pool = rng.sample(_BIG, k)
+    else:  # pragma: no cover
+        raise AssertionError(nkind)
     rng.shuffle(pool)  # insertion order != sorted order
     return nkind, pool
 
@@ -222,8 +255,8 @@ def gen_complex(rng, need_big_edge, big=False, nkind=None):
     return S, nkind, feats
 
 
-def gen_dihypergraph(rng):
-    nkind, pool = _pool(rng)
+def gen_dihypergraph(rng, nkind=None):
+    nkind, pool = _pool(rng, nkind=nkind)
     D = xgi.DiHypergraph()
     if rng.random() < 0.5:
         D.add_nodes_from(rng.sample(pool, rng.randint(1, len(pool))))
@@ -236,9 +269,9 @@ def gen_dihypergraph(rng):
     return D, nkind
 
 
-def gen_tiny(rng, which):
+def gen_tiny(rng, which, nkind=None):
     """0-node, 1-node and edgeless networks (layouts only)."""
-    nkind, pool = _pool(rng)
+    nkind, pool = _pool(rng, nkind=nkind)
     cls = xgi.Hypergraph if rng.random() < 0.7 else xgi.SimplicialComplex
     H = cls()
     how = ("n=0", "n=1", "edgeless", "n=1+singleton")[which % 4]
@@ -381,15 +414,16 @@ def case_layout(mon, rng, idx):
     np.random.seed(rng.randrange(2**32))
     _random.seed(rng.randrange(2**32))
     r = rng.random()
+    kind = LABEL_KINDS[idx % len(LABEL_KINDS)]  # fixed by idx: the floors do not depend on the seed
     if idx % 8 == 0:  # deterministic share, so that the floors do not depend on the seed
-        H, nkind, how = gen_tiny(rng, idx // 8)
+        H, nkind, how = gen_tiny(rng, idx // 8, kind)
         mon.note(f"layout-has:{how}")
     elif r < 0.6:
-        H, nkind, feats = gen_hypergraph(rng, need_big_edge=False, big=rng.random() < 0.2)
+        H, nkind, feats = gen_hypergraph(rng, need_big_edge=False, big=rng.random() < 0.2, nkind=kind)
         for x in feats:
             mon.note(f"layout-has:{x}")
     else:
-        H, nkind, feats = gen_complex(rng, need_big_edge=False, big=rng.random() < 0.2)
+        H, nkind, feats = gen_complex(rng, need_big_edge=False, big=rng.random() < 0.2, nkind=kind)
         for x in feats:
             mon.note(f"layout-has:{x}")
     if snap.inv(H) != []:
@@ -427,7 +461,7 @@ def case_layout(mon, rng, idx):
             mon.note("barycenter:sub-network-with-full-positions")
             check_barycenters(mon, sub, node_pos, f"{src},full-network-positions", f"{describe(sub)}  # {how} of {desc} without {drop}")
     if idx % 3 == 0:
-        D, dkind = gen_dihypergraph(rng)
+        D, dkind = gen_dihypergraph(rng, LABEL_KINDS[(idx // 3) % len(LABEL_KINDS)])
         if snap.inv(D) != []:
             mon.note("discarded:invalid-input")
         else:
@@ -473,7 +507,10 @@ def check_barycenters(mon, net, node_pos, src, desc):
 # ---------------------------------------------------------------------------------
 ORDERS = ("node-order", "shuffled", "sorted", "reversed")
 VALUE_KINDS = ("tuple", "list", "array-f64", "array-f32", "array-int", "list-int")
-EXTRA = {"int": (97, 98, 99), "gap": (51, -9, 77), "str": ("zz9", "new", "q7")}
+EXTRA = {
+    "int": (97, 98, 99), "gap": (51, -9, 77), "str": ("zz9", "new", "q7"), "intfloat": (97.0, 98.0, 99.0), "float": (97.5, 98.25, 99.75),
+    "negint": (-97, -98, -99), "npint": (np.int64(97), np.int64(98), np.int32(99)), "int+float": (97.0, 98, 99.0), "bigint": (10**13 + 1, 2**71, -(10**16)),
+}
 
 
 def pick_extra(rng, nkind, nodes):
@@ -799,7 +836,7 @@ def case_draw(mon, rng, idx):
     _random.seed(rng.randrange(2**32))
     is_sc = idx % 3 == 0
     big = rng.random() < 0.15
-    net, nkind, feats = (gen_complex if is_sc else gen_hypergraph)(rng, need_big_edge=True, big=big)
+    net, nkind, feats = (gen_complex if is_sc else gen_hypergraph)(rng, need_big_edge=True, big=big, nkind=LABEL_KINDS[(idx // 3) % len(LABEL_KINDS)])
     if snap.inv(net) != []:
         mon.note("discarded:invalid-input")
         return
@@ -880,8 +917,11 @@ SEQ_EDITS = {
     "Hypergraph": ("swap-node", "relabel", "rewire", "add-edge", "remove-edge", "remove-node"),
     "SimplicialComplex": ("swap-node", "relabel", "add-simplex", "remove-simplex", "remove-node"),
 }
-SEQ_KINDS = ("str", "gap", "int")
-FRESH = {"int": list(range(20, 60)), "gap": list(range(60, 120)), "str": [f"s{i}" for i in range(40)]}
+FRESH = {
+    "int": list(range(20, 60)), "gap": list(range(60, 120)), "str": [f"s{i}" for i in range(40)], "intfloat": [float(i) for i in range(20, 60)],
+    "float": [i + 0.5 for i in range(20, 60)], "negint": list(range(-100, -60)), "npint": [np.int64(i) for i in range(40, 80)],
+    "int+float": [float(i) for i in range(20, 60)], "bigint": [10**12 + 1000 + i for i in range(40)],
+}
 
 
 def _fresh(rng, nkind, net, used):
@@ -1019,13 +1059,14 @@ def case_sequence(mon, rng, idx):
     _random.seed(rng.randrange(2**32))
     is_sc = idx % 3 == 0
     j = idx // 3
-    nkind = SEQ_KINDS[j % 3]
+    nkind = LABEL_KINDS[j % len(LABEL_KINDS)]
     net, nkind, _ = (gen_complex if is_sc else gen_hypergraph)(rng, need_big_edge=True, nkind=nkind)
     if snap.inv(net) != []:
         mon.note("discarded:invalid-input")
         return
     cls = type(net).__name__
     mon.note(f"seq:{cls}")
+    mon.note(f"seq-labels:{nkind}")
     used = set(net.nodes)
     known = {}
     spare = [v * 0.5 for v in rng.sample(range(-200, 800), 120)]  # pairwise distinct coordinates for up to 60 labels
